@@ -16,8 +16,9 @@ is also run when the spliced-in child `x` is the nil sentinel.  The unrepaired c
 fix-up in that case and loses the equal-black-height invariant (insert 0,1,2,3; delete 0).
 
 Not modelled: pair identity (re-allocation of a pair by `change_pair_val` for INLINE value
-copiers keeps position, colour and links, which is what the model's `setVal` does), allocation
-failure, custom copiers/freeers/keepers, `hawk_rbt_cbsert`, the optional iterator protection
+copiers or by a `hawk_rbt_cbsert` callback keeps position, colour and links, which is what the
+model's `setVal` does), allocation failure, the calls made to user copiers / freeers / keepers
+(counted and checked by the harness for its user style), the optional iterator protection
 (`HAWK_ENABLE_RBT_ITR_PROTECTION`, not enabled in this build).  Keys are natural numbers
 ordered by `<` (the comparator is abstracted to an order embedding into `Nat`).
 -/
@@ -144,6 +145,8 @@ inductive Res (V : Type) where
   | pair (k : Nat) (v : V)
   | eexist
   | enoent
+  /-- `hawk_rbt_cbsert` only: the callback returned NULL -/
+  | failed
   deriving Repr
 
 /-- the static function `insert (rbt, kptr, klen, vptr, vlen, opt)` -/
@@ -163,6 +166,26 @@ def insert (t : T V) (k : Nat) (v : V) := insertOp .insert t k v
 def upsert (t : T V) (k : Nat) (v : V) := insertOp .upsert t k v
 def update (t : T V) (k : Nat) (v : V) := insertOp .update t k v
 def ensert (t : T V) (k : Nat) (v : V) := insertOp .ensert t k v
+
+/-- `hawk_rbt_cbsert (rbt, kptr, klen, cbserter, ctx)`.  The callback is abstracted to what it
+    decides: `f` receives the value of the existing pair for the key (`none`: no such pair,
+    the callback gets NULL) and answers the value of the pair it hands back, or `none` for
+    failure (NULL).  For an existing key the pair handed back is the old pair itself (possibly
+    changed in place) or a re-allocated one; `hawk_rbt_cbsert` then restores colour, children
+    and parent from the copy it took before the call, so only the value changes — `setVal`.
+    For an absent key the new pair is linked exactly as in `insert` (same descent, `adjust`,
+    black root, `size++`).  A failing callback leaves the tree untouched.
+    The callback contract (the pair handed back carries the key it was asked for) is assumed. -/
+def cbsert (t : T V) (k : Nat) (f : Option V → Option V) : T V × Res V :=
+  match search t k with
+  | some v0 =>
+    match f (some v0) with
+    | none => (t, .failed)
+    | some v' => (setVal k v' t, .pair k v')
+  | none =>
+    match f none with
+    | none => (t, .failed)
+    | some v' => (setBlack (ins k v' t), .pair k v')
 
 /-! ## delete
 
